@@ -119,12 +119,14 @@ struct Run {
     }
     // same: the rotation goes onto the NAME that is in use (e.g. names made from a time stamp, twice within a second): the
     // output being closed is complete under that name when the call returns, the new one replaces it when it is closed
-    std::size_t rotate(bool exp_block, bool same = false) {
+    // ext: the new name is the name in use plus the compression extension ("x" -> "x.gz" under gzip): another name, hence
+    // another file ("x.gz.gz"); the output being closed ("x.gz") is not touched again
+    std::size_t rotate(bool exp_block, bool same = false, bool ext = false) {
         std::size_t r;
         last_rot_mismatch = false;
         if (outkind == "file") {
             std::string old = cur_name;
-            std::string next = same ? cur_name : fresh();
+            std::string next = same ? cur_name : (ext && !suffix().empty()) ? cur_name + suffix() : fresh();
             r = exp->rotate_output(next, exp_block);
             cur_name = next;
             json ev; // OUT is emitted by the caller after the C event
@@ -167,7 +169,7 @@ struct Run {
             else if (o == "mm") ret = exp->buffer_mm(vr::mm_in(op["r"]), st);
             else if (o == "wb") ret = exp->write_block();
             else if (o == "rot" && op.value("mismatch", false) && outkind == "fd") ret = rotate_mismatch(op.value("export", false));
-            else if (o == "rot") ret = rotate(op.value("export", false), op.value("same", false));
+            else if (o == "rot") ret = rotate(op.value("export", false), op.value("same", false), op.value("ext", false));
             else if (o == "rotbad") {
                 // a rotation that cannot succeed (a descriptor that is not open / a name in a directory that does not
                 // exist); the call reports it.  Only used where outputs are compared, not modelled (C20 byte identity).
